@@ -429,6 +429,33 @@ func (w *World) triggerFn(cp Comp) func(r column.Reader) {
 		}
 		v := decodeVal(k, r.(*commit.Reader))
 		w.trig[id] = append(w.trig[id], fmt.Sprintf("TStored %d %s", r.Index(), v.Coq()))
+		// the typed accessors a trigger would use must agree with the entry's bytes
+		if k.Numeric() && !k.Float() && (v.W == 2 || v.W == 4 || v.W == 8) {
+			var sx int64
+			switch v.W {
+			case 2:
+				sx = int64(int16(v.N))
+			case 4:
+				sx = int64(int32(v.N))
+			default:
+				sx = int64(v.N)
+			}
+			if got := int64(r.Int()); got != sx && len(w.notes) < 20 {
+				w.notes = append(w.notes, fmt.Sprintf("Trigger: event for row %d carries the %d-byte value %d but Reader.Int() = %d", r.Index(), v.W, sx, got))
+			}
+			if got := uint64(r.Uint()); got != v.N && len(w.notes) < 20 {
+				w.notes = append(w.notes, fmt.Sprintf("Trigger: event for row %d carries the %d-byte value %d but Reader.Uint() = %d", r.Index(), v.W, v.N, got))
+			}
+		}
+		if k.IntFloat() {
+			want := math.Float64frombits(v.N)
+			if v.W == 4 {
+				want = float64(math.Float32frombits(uint32(v.N)))
+			}
+			if got := r.Float(); got != want && len(w.notes) < 20 {
+				w.notes = append(w.notes, fmt.Sprintf("Trigger: event for row %d carries %v but Reader.Float() = %v", r.Index(), want, got))
+			}
+		}
 	}
 }
 
@@ -452,10 +479,15 @@ func (w *World) createCompSilent(c *column.Collection, cp Comp) error {
 	return w.createComp(c, cp)
 }
 
-func (w *World) addColumn(k Kind) {
+func (w *World) addColumn(k Kind) { w.addColumnNamed(k, "") }
+
+func (w *World) addColumnNamed(k Kind, name string) {
 	id := w.nextID
 	w.nextID++
-	col := Col{ID: id, Name: fmt.Sprintf("c%d_%s", id, k), K: k}
+	if name == "" {
+		name = fmt.Sprintf("c%d_%s", id, k)
+	}
+	col := Col{ID: id, Name: name, K: k}
 	if err := col.Create(w.coll); err != nil {
 		panic(err)
 	}
@@ -534,6 +566,11 @@ func (w *World) dropColumn() {
 	delete(w.holey, col.ID)
 	w.emit("StDropCol %d", col.ID)
 	w.stats.DroppedCols++
+	if w.rng.Bool() {
+		// a new column under the dropped one's name, straight away (no transaction in between)
+		ks := w.kinds()
+		w.addColumnNamed(ks[w.rng.Intn(len(ks))], col.Name)
+	}
 	// the next observation reports the rows that lost a value
 }
 
@@ -665,6 +702,27 @@ func (w *World) altReads(c *column.Collection, rows map[uint32]rowObs, cols []Co
 				return nil
 			})
 		})
+		for _, cp := range w.comps {
+			if cp.Kind != "index" {
+				continue
+			}
+			var want, got []uint32
+			for o, ro := range rows {
+				for _, id := range ro.idxs {
+					if id == cp.ID {
+						want = append(want, o)
+					}
+				}
+			}
+			sort.Slice(want, func(a, b int) bool { return want[a] < want[b] })
+			c.Query(func(t2 *column.Txn) error {
+				t2.With(cp.Name).Range(func(i uint32) { got = append(got, i) })
+				return nil
+			})
+			if fmt.Sprint(want) != fmt.Sprint(got) {
+				note("Index: With(%s) selects %v, the rows the index holds are %v", cp.Name, got, want)
+			}
+		}
 		var live []uint32
 		for o := range rows {
 			live = append(live, o)
@@ -795,13 +853,22 @@ func (w *World) feedReplica(pending []commitRec) {
 		// serialized route: range over the whole file, skip what was replayed before
 		lg := commit.Open(bytes.NewReader(w.logger.file.Bytes()))
 		n := 0
+		batch := w.rng.Bool() // a replica that collects the commits and applies them after Range returned
+		var kept []commit.Commit
 		lg.Range(func(c commit.Commit) error {
 			if n >= w.logger.seen {
-				w.replica.Replay(c)
+				if batch {
+					kept = append(kept, c)
+				} else {
+					w.replica.Replay(c)
+				}
 			}
 			n++
 			return nil
 		})
+		for _, c := range kept {
+			w.replica.Replay(c)
+		}
 		w.logger.seen = n
 		return
 	}
@@ -828,6 +895,7 @@ type txnGen struct {
 	blocks     map[uint32]bool
 	filtered   bool
 	emptied    bool
+	lastPred   *Col
 	noUnion    bool // no Union / WithUnion any more: a nested transaction may have grown the collection
 }
 
@@ -1263,6 +1331,18 @@ func (g *txnGen) doFilter(txn *column.Txn) {
 			return
 		}
 		col := w.cols[w.rng.Intn(len(w.cols))]
+		if w.prof.Name == "filter" && w.rng.Chance(35) {
+			for _, c := range w.cols {
+				if c.K == KEnum {
+					col = c // the enum columns filter through their own cached predicate path
+					break
+				}
+			}
+		}
+		if g.lastPred != nil && w.rng.Chance(40) {
+			col = *g.lastPred // a second, different predicate on the column the previous filter looked at
+		}
+		g.lastPred = &col
 		p := randPred(w.rng, col.K)
 		g.applyPred(txn, col, p)
 		g.stmt("pred."+p.Kind, fmt.Sprintf("SFilter (FPred %d %s)", col.ID, p.Coq()), "RNone")
@@ -1569,6 +1649,35 @@ func (g *txnGen) run(txn *column.Txn, n int) {
 				g.doAt(txn)
 			}
 		}
+	}
+}
+
+// filterBurst: several small transactions, each one predicate filter on the same enum column and a
+// Count: whatever a filter pass keeps between calls (the enum columns cache the verdict of the last
+// string location they looked at) must not leak into the next one
+func (w *World) filterBurst() {
+	var col *Col
+	for i := range w.cols {
+		if w.cols[i].K == KEnum {
+			col = &w.cols[i]
+		}
+	}
+	if col == nil || len(w.prev) == 0 || len(w.prev) > 2000 {
+		return
+	}
+	for k := 0; k < 6; k++ {
+		g := newTxnGen(w, map[string]bool{})
+		p := randPred(w.rng, col.K)
+		w.coll.Query(func(txn *column.Txn) error {
+			txn.WithString(col.Name, func(s string) bool { return p.EvalVal(Val{W: -1, B: []byte(s)}) })
+			g.stmt("pred."+p.Kind, fmt.Sprintf("SFilter (FPred %d %s)", col.ID, p.Coq()), "RNone")
+			g.stmt("count", "STerm TCount", fmt.Sprintf("RCount %d", txn.Count()))
+			return nil
+		})
+		w.stats.Txns++
+		w.stats.Commits++
+		obs := w.observe(g.results)
+		w.emit("StTxn [%s] %v\n    %s", strings.Join(g.body, ";\n      "), true, obs)
 	}
 }
 
@@ -1950,6 +2059,9 @@ func runCaseHooked(seed uint64, idx int, prof Profile, stats *Stats, cur *atomic
 		if rng.Chance(prof.RestorePct) {
 			w.doRestore()
 		}
+	}
+	if prof.Name == "filter" {
+		w.filterBurst()
 	}
 	if prof.ReplicaPct > 0 {
 		w.doReplicaCheck()
